@@ -122,6 +122,7 @@ type ReplayResult struct {
 	Class      string        `json:"class"`
 	Detail     string        `json:"detail"`
 	SameTrace  bool          `json:"same_trace"`
+	ViaSession bool          `json:"via_session,omitempty"` // reproduced only by re-running the worker session that led to it
 	Known      string        `json:"known,omitempty"`
 	TraceHash  string        `json:"trace_hash"`
 	Trace      []simrt.Event `json:"trace,omitempty"`
@@ -138,6 +139,16 @@ type ReplayFile struct {
 	TraceHash string          `json:"trace_hash"`
 	Trace     []simrt.Event   `json:"trace"`
 	Violation Violation       `json:"violation"`
+	// Session is the sequence of rapid batches (seeded from Seed, Worker and the batch number)
+	// the worker process had executed when it met the violation. A violation that depends on
+	// state the code under test keeps across runs of one process (package-level caches and
+	// variables) does not recur when the plan alone is executed in a fresh process;
+	// re-running the session does reproduce it.
+	Session *Session `json:"session,omitempty"`
+}
+
+type Session struct {
+	BatchSizes []int `json:"batch_sizes"`
 }
 
 type captureTB struct {
@@ -236,6 +247,8 @@ func Main(t *testing.T, h *Harness) {
 		return ""
 	}
 
+	var session *Session
+	var sessionClass, sessionTrace string
 	if rp := os.Getenv("VERIF_REPLAY"); rp != "" {
 		data, err := os.ReadFile(rp)
 		if err != nil {
@@ -270,7 +283,14 @@ func Main(t *testing.T, h *Harness) {
 			rr.Known = matchKnown(plan, out)
 		}
 		res.Replay = rr
-		return
+		if rr.Reproduced || rf.Session == nil || os.Getenv("VERIF_REPLAY_SESSION") == "0" {
+			return
+		}
+		// the plan alone does not fail in a fresh process: re-run the session that led to it
+		session = rf.Session
+		sessionClass, sessionTrace = rf.Class, rf.TraceHash
+		seed, worker, tier = rf.Seed, rf.Worker, rf.Tier
+		res.Evaluations = 0
 	}
 
 	wseed := mix(seed, uint64(worker))
@@ -354,11 +374,16 @@ func Main(t *testing.T, h *Harness) {
 	}
 	batch := 0
 	per := 20
+	var batchSizes []int
 	for {
-		if time.Since(start) >= budget || (maxRuns > 0 && res.Evaluations >= maxRuns) {
+		if session != nil {
+			if batch >= len(session.BatchSizes) {
+				break
+			}
+		} else if time.Since(start) >= budget || (maxRuns > 0 && res.Evaluations >= maxRuns) {
 			break
 		}
-		if stopFile != "" {
+		if stopFile != "" && session == nil {
 			if _, err := os.Stat(stopFile); err == nil {
 				break
 			}
@@ -370,6 +395,10 @@ func Main(t *testing.T, h *Harness) {
 		if maxRuns > 0 && int64(n) > maxRuns-res.Evaluations {
 			n = int(maxRuns - res.Evaluations)
 		}
+		if session != nil {
+			n = session.BatchSizes[batch-1]
+		}
+		batchSizes = append(batchSizes, n)
 		flag.Set("rapid.checks", strconv.Itoa(n))
 		tb := &captureTB{name: h.Property}
 		b0 := time.Now()
@@ -405,8 +434,15 @@ func Main(t *testing.T, h *Harness) {
 					lastFailOut.Violation.Class+": "+lastFailOut.Violation.Detail, lastFailOut.TraceHash, got, out.TraceHash, lastFailPlan))
 				break
 			}
+			if session != nil {
+				res.Replay = &ReplayResult{Reproduced: out.Violation.Class == sessionClass, Class: out.Violation.Class, Detail: out.Violation.Detail,
+					SameTrace: fmt.Sprintf("%016x", out.TraceHash) == sessionTrace, ViaSession: true, Known: matchKnown(plan, out),
+					TraceHash: fmt.Sprintf("%016x", out.TraceHash)}
+				break
+			}
 			rf := ReplayFile{Property: h.Property, Class: out.Violation.Class, Seed: seed, Worker: worker, Tier: tier,
-				Plan: lastFailPlan, TraceHash: fmt.Sprintf("%016x", out.TraceHash), Trace: out.Trace, Violation: *out.Violation}
+				Plan: lastFailPlan, TraceHash: fmt.Sprintf("%016x", out.TraceHash), Trace: out.Trace, Violation: *out.Violation,
+				Session: &Session{BatchSizes: append([]int(nil), batchSizes...)}}
 			data, _ := json.MarshalIndent(rf, "", " ")
 			os.MkdirAll(replayDir, 0o755)
 			name := filepath.Join(replayDir, fmt.Sprintf("%s-%d-w%d.json", sanitize(out.Violation.Class), seed, worker))
@@ -437,6 +473,9 @@ func Main(t *testing.T, h *Harness) {
 		}
 	}
 	res.Batches = batch
+	if session != nil {
+		return
+	}
 	if len(res.Violations) == 0 && len(res.Inconclusive) == 0 {
 		for _, c := range h.RequiredCounters {
 			if res.Counters[c] == 0 && res.Evaluations >= 50 {
